@@ -31,10 +31,11 @@ var codePkgs = map[string]string{
 	"x/burn/keeper": "burnkeeper",
 	"x/pnft/types":  "pnfttypes",
 	"x/pnft/keeper": "pnftkeeper",
+	"x/pnft":        "pnft",
 }
 
 // the state a package's keeper works on: the block's KV stores, or (x/burn, which only talks to x/bank) the bank model
-var worldTypeOf = map[string]string{"burnkeeper": "Go.BankWorld", "pnftkeeper": "Go.Nft.World"}
+var worldTypeOf = map[string]string{"burnkeeper": "Go.BankWorld", "pnftkeeper": "Go.Nft.World", "pnft": "Go.Nft.World"}
 
 func worldType(ns string) string {
 	if t, ok := worldTypeOf[ns]; ok {
@@ -48,7 +49,9 @@ func codeSkipFile(name string) bool {
 	return strings.HasSuffix(name, ".pb.go") || strings.HasSuffix(name, ".pb.gw.go") || strings.HasSuffix(name, "_test.go") ||
 		strings.HasSuffix(name, "/codec.go") || strings.HasSuffix(name, "/errors.go") || strings.HasSuffix(name, "/expected_keepers.go") ||
 		strings.HasSuffix(name, "/keeper.go") || strings.HasSuffix(name, "/x/aol/keeper/msg_server.go") ||
-		strings.HasSuffix(name, "/x/did/keeper/msg_server.go") || strings.HasSuffix(name, "/grpc_query.go")
+		strings.HasSuffix(name, "/x/did/keeper/msg_server.go") ||
+		(strings.HasSuffix(name, "/grpc_query.go") && !strings.HasSuffix(name, "/x/pnft/keeper/grpc_query.go")) ||
+		strings.HasSuffix(name, "/module.go")
 }
 
 // store key of each keeper package (the value of `k.storeKey`; tied separately by Facts.mountedStores)
@@ -116,6 +119,11 @@ func isCodecType(t types.Type) bool {
 	s := t.String()
 	return s == "github.com/cosmos/cosmos-sdk/codec.BinaryCodec" || s == "github.com/cosmos/cosmos-sdk/codec.Codec"
 }
+
+// parameters that are ambient in the translation: the codec, and a keeper passed to a free function (InitGenesis)
+var badStructs = map[string]string{}
+
+func isAmbientParam(t types.Type) bool { return isCodecType(t) || isImplicitRecv(t) }
 
 func namedOf(t types.Type) *types.Named {
 	if p, ok := t.(*types.Pointer); ok {
@@ -206,13 +214,28 @@ func (g *cgen) leanType(t types.Type) string {
 			}
 			if _, isStruct := u.Underlying().(*types.Struct); isStruct {
 				ln := ns + "." + name
+				if why, bad := badStructs[ln]; bad {
+					fail("%s", why)
+				}
 				if _, seen := g.structs[ln]; !seen {
 					g.structs[ln] = u
-					// fields first (dependencies before dependants)
-					st := u.Underlying().(*types.Struct)
-					for i := 0; i < st.NumFields(); i++ {
-						g.leanType(st.Field(i).Type())
-					}
+					// fields first (dependencies before dependants); a field type without a rule makes the whole
+					// structure (and every function that mentions it) untranslated, now and at every later use
+					func() {
+						defer func() {
+							if r := recover(); r != nil {
+								delete(g.structs, ln)
+								if us, ok := r.(unsupported); ok {
+									badStructs[ln] = us.why
+								}
+								panic(r)
+							}
+						}()
+						st := u.Underlying().(*types.Struct)
+						for i := 0; i < st.NumFields(); i++ {
+							g.leanType(st.Field(i).Type())
+						}
+					}()
 					g.sorder = append(g.sorder, ln)
 				}
 				return ln
@@ -1553,7 +1576,7 @@ func (c *fctx) callTranslated(e *emitter, ind int, cf *cfn, call *ast.CallExpr, 
 	}
 	for i, a := range call.Args {
 		pt := sig.Params().At(i).Type()
-		if isCtxType(pt) || isCodecType(pt) {
+		if isCtxType(pt) || isAmbientParam(pt) {
 			continue
 		}
 		addArg(a, pt)
@@ -2096,7 +2119,10 @@ func (g *cgen) analyse() {
 				cf.stateful = true
 				continue
 			}
-			if isCodecType(p.Type()) {
+			if isAmbientParam(p.Type()) {
+				if isImplicitRecv(p.Type()) {
+					cf.stateful = true
+				}
 				continue
 			}
 			if isCompositeKeyIface(p.Type()) {
@@ -2173,7 +2199,7 @@ func (g *cgen) analyse() {
 						}
 						sig := callee.obj.Type().(*types.Signature)
 						for i, a := range v.Args {
-							if i >= sig.Params().Len() || isCtxType(sig.Params().At(i).Type()) || isCodecType(sig.Params().At(i).Type()) {
+							if i >= sig.Params().Len() || isCtxType(sig.Params().At(i).Type()) || isAmbientParam(sig.Params().At(i).Type()) {
 								continue
 							}
 							if k < len(callee.mut) && callee.mut[k] {
